@@ -182,7 +182,12 @@ def check_sendline(c, repo, cl):
     for n, k in with_sep:
         a = k.args[0]
         if isinstance(a, ast.BinOp):
-            ok = isinstance(a.op, ast.Add) and norm(a.right) == 'self.linesep' and is_name(a.left, p)
+            left = a.left
+            if isinstance(left, ast.Name) and left.id != p:
+                left = al.single_assign.get(left.id, left)
+            # the text itself, or the text coerced to the object's string type (inline or through a local)
+            is_text = is_name(left, p) or (isinstance(left, ast.Call) and callee_last(left) == '_coerce_send_string' and left.args and is_name(left.args[0], p))
+            ok = isinstance(a.op, ast.Add) and norm(a.right) == 'self.linesep' and is_text
             c.check(ok, f, k, 'text first, separator last: send(s + self.linesep)', witness=norm(a), kind='ast', tag='order')
         else:
             # separate send of the separator: must come after the text
